@@ -650,6 +650,18 @@ def w_fixed_error(case):
         with Seam(Script(base=base)):
             res.append(np.asarray(pm.sample(x, times, n_samples=2, seed=3,
                                             return_df=False), dtype=float))
+    # under the generic script every (time, sample) cell has its own noise variate
+    with Seam(Script(base=generic)):
+        Ag = np.asarray(pm.sample(x, times, n_samples=3, seed=3, return_df=False),
+                        dtype=float)
+    if Ag.shape != (1, len(times), 3) or any(
+            Ag[0, t_, a_] == Ag[0, t_, b_] for t_ in range(len(times))
+            for a_ in range(3) for b_ in range(a_ + 1, 3)):
+        viol.append({'sub': 'fixed_noise', 'message': 'samples of a predictive model '
+                     'with fixed parameters %s share their noise realisation'
+                     % sorted(fixed), 'steps': case['steps'],
+                     'expected': 'pairwise different samples', 'observed': Ag,
+                     'behaviour': 'fixed_error'})
     ybar = v['q0'] * tf(times)
     e0 = np.repeat(ybar[np.newaxis, :, np.newaxis], 2, axis=2)
     e1 = e0 + (v['Sigma base'] + v['Sigma rel.'] * e0)
@@ -767,7 +779,12 @@ def w_regimen(case):
     m.set_administration('central', direct=case['direct'])
     pm = chi.PredictiveModel(m, [chi.GaussianErrorModel()])
     reg = case['reg']
+    if case.get('fix_first'):
+        # a mechanistic parameter is fixed before the regimen is given
+        pm.fix_parameters({'central.size': 1.2})
     pm.set_dosing_regimen(**{k: v for k, v in reg.items() if v is not None})
+    if case.get('fix_first'):
+        pm.fix_parameters({'central.size': None})
     times = case['times']
     n = pm.n_parameters()
     theta = [0.1, 0.4][:n - 3] + [1.2, 0.7][:2] + [0.05] if n == 4 else \
@@ -858,6 +875,14 @@ def build(tier, seed):
                                          'n_samples': ns, 'times': perms[3],
                                          'answers': list(ans), 'pad': pad,
                                          'pooled_sigma': pooled})
+    # no individual named: the FIRST ID of the dataset (IDs not in sorted order)
+    for nc, nd in ((2, 3), (1, 2)):
+        for inds_ in (['b', 'a'], ['pat-2', 'pat-10', 'pat-1'], ['a', 'b']):
+            for ans in range(nc * nd):
+                post.append({'draw_first': False, 'n_chains': nc, 'n_draws': nd,
+                             'inds': inds_, 'individual': None, 'n_samples': 1,
+                             'times': perms[3], 'answers': [ans], 'pad': False,
+                             'pooled_sigma': False})
     # one object asked for one individual after the other
     for nc, nd in ((2, 3), (1, 2)):
         for ind, prev in (('a', 'b'), ('b', 'a'), ('b', 'b')):
@@ -927,6 +952,9 @@ def build(tier, seed):
             for ns in (1, 2):
                 regs.append({'reg': reg, 'direct': direct, 'n_samples': ns,
                              'times': [2.2, 0.4, 1.1]})
+                if ns == 2:
+                    regs.append({'reg': reg, 'direct': direct, 'n_samples': ns,
+                                 'times': [2.2, 0.4, 1.1], 'fix_first': True})
     return {
         'parts': [
             Part('predictive', pred, w_pred, 'PredictiveModel: outputs x samples x '
